@@ -112,19 +112,23 @@ func SpecReplyTruth(reply interface{}) bool { panic("abstract spec function") }
 //@ func body:RdbReplay.Replay
 //@   arith int
 //@   properties C20
-//@   replay rdbrestore_Replay rdbrestore_badDataFallback rdbrestore_emptyKeySplit
+//@   replay rdbrestore_Replay rdbrestore_badDataFallback rdbrestore_emptyKeySplit rdbrestore_hashtagSplit
 //@   ghost var probed mathint = 0 - 1
 //@   ghost var expanded mathint
 //@   ghost var nDel mathint
 //@   ghost var nPexpire mathint
 //@   requires nonnil: rr != nil && e != nil && rr.Client != nil && e.ObjectParser != nil
-//@   modifies e.Key, rr.skippedKey, rr.skipping, probed, expanded, askedReplace, reqs, lastCmd, lastNArgs, lastA1, lastA2, lastA3, lastA4, lastReply, nDel, nPexpire
+//@   modifies e.Key, rr.skippedKey, rr.skipping, probed, expanded, askedReplace, nStrip, reqs, lastCmd, lastNArgs, lastA1, lastA2, lastA3, lastA4, lastReply, nDel, nPexpire
 //@   set probed = ite(exist, 1, 0) after store exist
 //@   set probed = ite(err#2 != nil, 0 - 1, probed) after store err#2
 //@   ensures ignore_keeps_existing_key: probed == 1 && rr.KeyExists == "ignore" ==> err == nil && expanded == old(expanded) && nPexpire == old(nPexpire) && nDel == old(nDel)
 //@   ensures error_stops_before_writing: probed == 1 && rr.KeyExists == "error" ==> err != nil && expanded == old(expanded) && nDel == old(nDel) && nPexpire == old(nPexpire)
 //@   ensures replace_deletes_first: probed == 1 && rr.KeyExists == "replace" && err == nil ==> nDel == old(nDel) + 1 && expanded == old(expanded) + 1
 //@   ensures absent_key_is_written: probed == 0 && err == nil ==> expanded == old(expanded) + 1 && nDel == old(nDel)
+//   nStrip  calls of bytes.Replace (the hash tag is stripped by two of them)
+//@   ghost var nStrip mathint = 0
+//@   set nStrip = nStrip + 1 after call Replace
+//@   ensures every_chunk_of_a_value_is_addressed_to_the_stripped_key: rr.ReplaceHashTag ==> nStrip == old(nStrip) + 2
 //@   ensures an_ignored_value_is_remembered_for_its_other_chunks: probed == 1 && rr.KeyExists == "ignore" ==> skips(rr, e.Key)
 //@   ensures the_other_chunks_of_an_ignored_value_are_skipped: old(!rdb.SpecFirstBin(e) && rdb.SpecSplit(e.ObjectParser) && rdb.SpecObjType(e.ObjectParser) != rdb.RdbObjectFunction && rdb.SpecObjType(e.ObjectParser) != rdb.RdbObjectAux && rdb.SpecObjType(e.ObjectParser) != rdb.RdbObjectModule && skips(rr, e.Key)) ==> err == nil && expanded == old(expanded) && reqs == old(reqs)
 //@   assert at call Do: policy_requests_address_the_entrys_key: len(args) > 0 && (cmd == "exists" || cmd == "del" || cmd == "pexpire" || cmd == "restore") ==> args[0] == dyn(e.Key)
